@@ -1,13 +1,13 @@
 SPECIFICATION Spec
 CONSTANTS
   Timers = {"a", "b"}
-  Kinds <- KindsB
-  Periods <- PeriodsB
-  MaxNow = 3
-  EnvOps = {"stop", "kill", "abort"}
-  Stalls = {}
+  Kinds <- KindsA
+  Periods <- PeriodsA
+  MaxNow = 7
+  EnvOps = {"stop", "busy", "stall"}
+  Stalls = {1, 3}
   VirtualClock = TRUE
-  Instant = TRUE
+  Instant = FALSE
   UnstartedKillsInterval = TRUE
 INVARIANTS
   TypeOk AfterOnce AfterResult NeverEarly Exact AbortStops NoDeliveryToDead HandledInOrder IntervalEnds Reasons IntervalSurvivesStart
